@@ -370,7 +370,13 @@ def exec_segment(case, mod, ops, fail):
                 out = ['ok', None]
             else:
                 chain = chains[op['chain']] if op['chain'] < len(chains) else None
-                if chain is None or (not chain.tasks and kind != 'force_chain'):
+                if chain is None and kind in ('force_chain', 'flags'):
+                    # the slot of a failed construction behaves as an empty chain (harness convention)
+                    resolved['names'] = []
+                    out = ['ok', {'flags': []}] if kind == 'flags' else ['ok', None]
+                elif chain is not None and kind == 'flags':
+                    out = ['ok', {'flags': [[n, bool(t.is_forced), bool(t.has_data)] for n, t in chain.tasks.items()]}]
+                elif chain is None or (not chain.tasks and kind != 'force_chain'):
                     resolved['name'] = '?'
                     resolved['names'] = []
                     out = 'error'
@@ -395,6 +401,8 @@ def exec_segment(case, mod, ops, fail):
                     elif kind == 'force_chain':
                         chain.force(resolved['names'], recompute=op['recompute'], delete_data=op['delete'])
                         out = ['ok', None]
+                    elif kind == 'flags':
+                        out = ['ok', {'flags': [[n, bool(t.is_forced), bool(t.has_data)] for n, t in chain.tasks.items()]}]
                     elif kind == 'has_data':
                         out = ['ok', {'bool': bool(chain.tasks[resolved['name']].has_data)}]
                     else:
